@@ -244,6 +244,7 @@ type C16SrvCase struct {
 	HasHeader   bool      `json:"hasheader"`
 	OnSession   string    `json:"onsession"` // nil | accept | reject-silent | reject-status
 	Topics      []string  `json:"topics,omitempty"`
+	EmptySlice  bool      `json:"emptyslice,omitempty"` // no topics: OnSession returns []string{} instead of nil
 	ProvSend    int       `json:"provsend"`
 	ProvErr     string    `json:"proverr"` // none | before | after
 	CancelFirst bool      `json:"cancelfirst,omitempty"`
@@ -268,6 +269,9 @@ func genC16Srv(t *rapid.T) C16SrvCase {
 	nt := stats.Pick(t, 4, "ntopics")
 	for i := 0; i < nt; i++ {
 		c.Topics = append(c.Topics, stats.From(t, []string{"", "a", "b", "news"}, "topic"))
+	}
+	if nt == 0 {
+		c.EmptySlice = rapid.Bool().Draw(t, "emptyslice")
 	}
 	c.ProvSend = stats.Pick(t, 4, "provsend")
 	c.ProvErr = stats.From(t, []string{"none", "none", "before", "after"}, "proverr")
@@ -331,6 +335,9 @@ func checkC16Srv(t *testing.T, c C16SrvCase) *stats.Verdict {
 	case "accept":
 		srv.OnSession = func(w http.ResponseWriter, r *http.Request) ([]string, bool) {
 			onSessionCalls++
+			if len(c.Topics) == 0 && c.EmptySlice {
+				return make([]string, 0, 4), true
+			}
 			return c.Topics, true
 		}
 	case "reject-silent":
